@@ -193,7 +193,7 @@ func mutantMain(args []string) int {
 				mcfg.match = func(s string) bool { return base.MatchString(s) && sel.MatchString(s) }
 			}
 		}
-		r := runProp(&mcfg, 10*time.Second, ov, work, false, 4)
+		r := runProp(&mcfg, 20*time.Second, ov, work, false, 4)
 		if r.loadErr != nil {
 			fmt.Printf("  %-8s %-40s DOES NOT COMPILE: %v\n", id, m.Name, firstLineOf(r.loadErr.Error()))
 			return 1
